@@ -50,6 +50,34 @@ def facts_c04(repo, lean):
 
 
 
+def facts_tuplegen(repo, lean):
+    """Tie A: harness/cmd/go2lean TRANSLATES the generated TupleN instance functions of eq/hash/ord/monoid/clone found in the
+    working tree into Lean definitions (FpVerif/Gen/TupleGen.lean, not under version control); the committed theorems of
+    Spec/C14Gen.lean state, per family and arity, that the translated function is the arity-generic model instance (`rfl`)."""
+    out = os.path.join(lean, 'FpVerif', 'Gen', 'TupleGen.lean')
+    os.makedirs(os.path.dirname(out), exist_ok=True)
+    harness = os.path.join(os.path.dirname(lean), 'harness')
+    env = dict(os.environ, GOFLAGS='-mod=mod', GOPROXY='off', GOSUMDB='off', GOTOOLCHAIN='local')
+    tmp_out = out + '.new.%d' % os.getpid()
+    p = subprocess.run(['go', 'run', './cmd/go2lean', repo, tmp_out], cwd=harness, env=env, stdout=subprocess.PIPE,
+                       stderr=subprocess.STDOUT, text=True)
+    if p.returncode != 0 or not os.path.exists(tmp_out):
+        if os.path.exists(out):
+            os.remove(out)
+        return dict(error='go2lean failed: ' + p.stdout[-800:], obligations=1)
+    # keep the old file (and its build products) when the translation did not change
+    if not os.path.exists(out) or open(out).read() != open(tmp_out).read():
+        os.replace(tmp_out, out)
+    else:
+        os.remove(tmp_out)
+    info = json.loads(p.stdout.strip().split('\n')[-1])
+    res = dict(translated=info['translated'], untranslatable=info['untranslatable'], obligations=1,
+               generated='FpVerif/Gen/TupleGen.lean')
+    if info['untranslatable']:
+        res['error'] = 'go2lean: outside the translated fragment: ' + json.dumps(info['untranslatable'])[:800]
+    return res
+
+
 
 import re as _re
 
@@ -225,8 +253,13 @@ CHECKS = {
                      'the stress part (real goroutines, no hooks) is not reproducible from the seed'],
     ),
     'C06': dict(
-        spec=['FpVerif.Spec.C06', 'FpVerif.Spec.C06Sound', 'FpVerif.Spec.C06Live', 'FpVerif.Spec.C06Chain', 'FpVerif.Spec.C06Drain', 'FpVerif.Spec.C06Once', 'FpVerif.Spec.C14MiscFut'],
-        harnesses=[H('future', 'oracle_future', 3000, 150000, spec_level=True, project=project_future)],
+        spec=['FpVerif.Spec.C06', 'FpVerif.Spec.C06Sound', 'FpVerif.Spec.C06Live', 'FpVerif.Spec.C06Chain', 'FpVerif.Spec.C06Drain', 'FpVerif.Spec.C06Once', 'FpVerif.Spec.C14MiscFut',
+              # the task-atomic model ASSUMES that a promise is an atomic single-assignment cell with exactly-once delivery at the level of the
+              # individual atomic steps; that reduction is C05, so its theorems and its atomic-step harness are part of this check too
+              # (seeds C06-2 / C06-6: a completion that gives up after a lost CAS leaves the derived future pending for ever)
+              'FpVerif.Spec.C05'],
+        harnesses=[H('future', 'oracle_future', 3000, 150000, spec_level=True, project=project_future),
+                   H('promise', 'oracle_promise', 4000, 400000)],
         level='proof',
         level_note='trusted: Lean kernel (propext/Classical.choice/Quot.sound only); model fidelity checked by correspondence (statuses of every future, '
                    'callback log and pool size compared after EVERY scenario under the same schedule, i.e. the task structure itself is compared). '
@@ -289,7 +322,8 @@ CHECKS = {
                      'user callbacks do not panic in the theorems'],
     ),
     'C14': dict(
-        spec=['FpVerif.Spec.C14', 'FpVerif.Spec.C14Fut', 'FpVerif.Spec.C14Misc', 'FpVerif.Spec.C14MiscFut'],
+        spec=['FpVerif.Spec.C14', 'FpVerif.Spec.C14Fut', 'FpVerif.Spec.C14Misc', 'FpVerif.Spec.C14MiscFut', 'FpVerif.Spec.C14Gen'],
+        facts=facts_tuplegen,
         harnesses=[H('arity', 'oracle_arity', 16000, 1600000, spec_level=True,
                      nontrivial=lambda op, impl: op.count(' ') >= 3),
                    # the eq/ord/hash/monoid/clone TupleN families live in the typeclass machinery (C09-C11, C18)
@@ -373,7 +407,8 @@ def _only(classes):
 
 CHECKS_TC = {
     'C09': dict(
-        spec=['FpVerif.Spec.C09'],
+        spec=['FpVerif.Spec.C09', 'FpVerif.Spec.C14Gen'],
+        facts=facts_tuplegen,
         harnesses=[H('tc', 'oracle_tc', 3000, 300000, extra=_only('eq,hash'))],
         level='proof',
         modelled='typeclass.go (Eq, EqFunc, EqGiven, Hashable); eq/eq_op.go (New, Time, Bytes, Tuple1, Option, Seq, Slice, '
@@ -387,7 +422,8 @@ CHECKS_TC = {
                      'ContraMap functions are pure (the theorems quantify over all functions)'],
     ),
     'C10': dict(
-        spec=['FpVerif.Spec.C10', 'FpVerif.Spec.C10Ext'],
+        spec=['FpVerif.Spec.C10', 'FpVerif.Spec.C10Ext', 'FpVerif.Spec.C14Gen'],
+        facts=facts_tuplegen,
         harnesses=[H('tc', 'oracle_tc', 3000, 200000, extra=_only('ord')),
                    # SortSeqT / MinSeqT / MaxSeqT of try/try_seqt.go (Spec/C10Ext.lean); SortSeqT is only run with orders whose Eqv elements are indistinguishable
                    # (sort.Sort is unstable); Min/Max answers rendered by the equivalence class of the result (C10 fixes "a least element", not which)
@@ -406,7 +442,8 @@ CHECKS_TC = {
                      '(note:seq.Sort-mutated-its-input(C04)), a failure only with the harness flag -c04'],
     ),
     'C11': dict(
-        spec=['FpVerif.Spec.C11', 'FpVerif.Spec.C14Misc'],
+        spec=['FpVerif.Spec.C11', 'FpVerif.Spec.C14Misc', 'FpVerif.Spec.C14Gen'],
+        facts=facts_tuplegen,
         harnesses=[H('tc', 'oracle_tc', 3000, 300000, extra=_only('mon,sg')),
                    # monoid adapters SemigroupFunc.Empty/Curried, EmptyFunc.Empty, monoid.ToMonoid/Curried (toMonoid_lawful_iff ...)
                    H('misc', 'oracle_misc', 3000, 300000, spec_level=True)],
@@ -422,7 +459,8 @@ CHECKS_TC = {
                      'functions (Endo) are compared extensionally; in the harness on the domain [-2..3]'],
     ),
     'C18': dict(
-        spec=['FpVerif.Spec.C18'],
+        spec=['FpVerif.Spec.C18', 'FpVerif.Spec.C14Gen'],
+        facts=facts_tuplegen,
         harnesses=[H('clone', 'oracle_clone', 4000, 400000)],
         level='proof',
         modelled='clone/clone.go (New, Ptr, Given, HNil, Seq, GoMap, Slice, Option, HCons, Tuple2, Generic) + clone/clone_gen.go '
